@@ -533,4 +533,39 @@ theorem lazyBrace_ok (x : Ext R) (items : Pat → List Pat) :
     have h0 : ¬ ((0 : Int) < 0 ∧ (0 : Int) < ((items p).length : Int)) := by omega
     simp only [lazyBrace, h0, if_false]; exact Nat.le_refl _
 
+/-! ### the budget handed to bracex is never "unlimited" under a positive limit -/
+
+theorem nextLimit_bounds (L cl : Int) (count : Nat) (hL : L ≠ 0) (hcl : 1 ≤ cl) :
+    1 ≤ nextLimit L cl count ∧ nextLimit L cl count ≤ cl := by
+  unfold nextLimit
+  simp only [hL, ne_eq, not_false_eq_true, if_true]
+  split <;> omega
+
+/-- with a positive limit every `limit` argument given to the expander lies in `[1, cl]`: bracex
+    (for which 0 means "no limit") is never asked for an unbounded expansion -/
+theorem braceArgs_bounds {O} (x : Ext R) (fl : Flags) (pol : Policy O) (L : Int) (hL : 0 < L)
+    (ps : List Pat) (cl : Int) (a : Acc O) (hcl : 1 ≤ cl) :
+    ∀ qa ∈ braceArgs x fl pol L ps cl a, 1 ≤ qa.2 ∧ qa.2 ≤ cl := by
+  induction ps generalizing cl a with
+  | nil => intro qa h; simp [braceArgs] at h
+  | cons p ps ih =>
+    intro qa h
+    simp only [braceArgs] at h
+    cases hq : x.norm fl p with
+    | error e => simp [hq] at h
+    | ok q =>
+      simp only [hq] at h
+      rcases List.mem_cons.mp h with h | h
+      · rw [h]; exact ⟨hcl, Int.le_refl _⟩
+      · cases hri : runItems pol L (expand x fl q cl).1 a 0 with
+        | error e => simp [hri] at h
+        | ok r =>
+          obtain ⟨a', count⟩ := r
+          simp only [hri] at h
+          split at h
+          · simp at h
+          · obtain ⟨h1, h2⟩ := nextLimit_bounds L cl count (by omega) hcl
+            obtain ⟨h3, h4⟩ := ih _ a' h1 qa h
+            exact ⟨h3, by omega⟩
+
 end WcModel.Compile
